@@ -288,6 +288,611 @@ fn c16_clamp_inverted_range() {
 }
 
 // ---------------------------------------------------------------------------
+// thorough tier: the same clamp contract over all 8^3 triples of the class
+// representatives {none,px,in,em,deg,s,%,unknown} (64 straight-line calls per harness)
+// ---------------------------------------------------------------------------
+
+//@ ob: id=C16/K/clamp_all_reps_min_none kind=K-bounded tier=thorough fns=SassCalculation::clamp,Number::convert also=C01 bound="min unit = none; value and max units over the 8 class representatives {none,px,in,em,deg,s,%,unknown}; magnitudes 10/15/20"
+//@ desc: clamp contract (see clamp_min_*) over the wider representative set
+#[kani::proof]
+#[kani::unwind(2)]
+#[kani::stub(crate::value::Number::convert, convert_contract)]
+#[kani::stub(SassCalculation::verify_compatible_numbers, vcn_stub)]
+#[kani::stub(alloc::fmt::format, format_stub)]
+fn c16_clamp_all_reps_min_none() {
+    check_clamp(&unit_of(34, 3), &unit_of(34, 3), &unit_of(34, 3), 10.0, 15.0, 20.0);
+    check_clamp(&unit_of(34, 3), &unit_of(34, 3), &unit_of(0, 3), 10.0, 15.0, 20.0);
+    check_clamp(&unit_of(34, 3), &unit_of(34, 3), &unit_of(2, 3), 10.0, 15.0, 20.0);
+    check_clamp(&unit_of(34, 3), &unit_of(34, 3), &unit_of(7, 3), 10.0, 15.0, 20.0);
+    check_clamp(&unit_of(34, 3), &unit_of(34, 3), &unit_of(21, 3), 10.0, 15.0, 20.0);
+    check_clamp(&unit_of(34, 3), &unit_of(34, 3), &unit_of(25, 3), 10.0, 15.0, 20.0);
+    check_clamp(&unit_of(34, 3), &unit_of(34, 3), &unit_of(33, 3), 10.0, 15.0, 20.0);
+    check_clamp(&unit_of(34, 3), &unit_of(34, 3), &unit_of(35, 3), 10.0, 15.0, 20.0);
+    check_clamp(&unit_of(34, 3), &unit_of(0, 3), &unit_of(34, 3), 10.0, 15.0, 20.0);
+    check_clamp(&unit_of(34, 3), &unit_of(0, 3), &unit_of(0, 3), 10.0, 15.0, 20.0);
+    check_clamp(&unit_of(34, 3), &unit_of(0, 3), &unit_of(2, 3), 10.0, 15.0, 20.0);
+    check_clamp(&unit_of(34, 3), &unit_of(0, 3), &unit_of(7, 3), 10.0, 15.0, 20.0);
+    check_clamp(&unit_of(34, 3), &unit_of(0, 3), &unit_of(21, 3), 10.0, 15.0, 20.0);
+    check_clamp(&unit_of(34, 3), &unit_of(0, 3), &unit_of(25, 3), 10.0, 15.0, 20.0);
+    check_clamp(&unit_of(34, 3), &unit_of(0, 3), &unit_of(33, 3), 10.0, 15.0, 20.0);
+    check_clamp(&unit_of(34, 3), &unit_of(0, 3), &unit_of(35, 3), 10.0, 15.0, 20.0);
+    check_clamp(&unit_of(34, 3), &unit_of(2, 3), &unit_of(34, 3), 10.0, 15.0, 20.0);
+    check_clamp(&unit_of(34, 3), &unit_of(2, 3), &unit_of(0, 3), 10.0, 15.0, 20.0);
+    check_clamp(&unit_of(34, 3), &unit_of(2, 3), &unit_of(2, 3), 10.0, 15.0, 20.0);
+    check_clamp(&unit_of(34, 3), &unit_of(2, 3), &unit_of(7, 3), 10.0, 15.0, 20.0);
+    check_clamp(&unit_of(34, 3), &unit_of(2, 3), &unit_of(21, 3), 10.0, 15.0, 20.0);
+    check_clamp(&unit_of(34, 3), &unit_of(2, 3), &unit_of(25, 3), 10.0, 15.0, 20.0);
+    check_clamp(&unit_of(34, 3), &unit_of(2, 3), &unit_of(33, 3), 10.0, 15.0, 20.0);
+    check_clamp(&unit_of(34, 3), &unit_of(2, 3), &unit_of(35, 3), 10.0, 15.0, 20.0);
+    check_clamp(&unit_of(34, 3), &unit_of(7, 3), &unit_of(34, 3), 10.0, 15.0, 20.0);
+    check_clamp(&unit_of(34, 3), &unit_of(7, 3), &unit_of(0, 3), 10.0, 15.0, 20.0);
+    check_clamp(&unit_of(34, 3), &unit_of(7, 3), &unit_of(2, 3), 10.0, 15.0, 20.0);
+    check_clamp(&unit_of(34, 3), &unit_of(7, 3), &unit_of(7, 3), 10.0, 15.0, 20.0);
+    check_clamp(&unit_of(34, 3), &unit_of(7, 3), &unit_of(21, 3), 10.0, 15.0, 20.0);
+    check_clamp(&unit_of(34, 3), &unit_of(7, 3), &unit_of(25, 3), 10.0, 15.0, 20.0);
+    check_clamp(&unit_of(34, 3), &unit_of(7, 3), &unit_of(33, 3), 10.0, 15.0, 20.0);
+    check_clamp(&unit_of(34, 3), &unit_of(7, 3), &unit_of(35, 3), 10.0, 15.0, 20.0);
+    check_clamp(&unit_of(34, 3), &unit_of(21, 3), &unit_of(34, 3), 10.0, 15.0, 20.0);
+    check_clamp(&unit_of(34, 3), &unit_of(21, 3), &unit_of(0, 3), 10.0, 15.0, 20.0);
+    check_clamp(&unit_of(34, 3), &unit_of(21, 3), &unit_of(2, 3), 10.0, 15.0, 20.0);
+    check_clamp(&unit_of(34, 3), &unit_of(21, 3), &unit_of(7, 3), 10.0, 15.0, 20.0);
+    check_clamp(&unit_of(34, 3), &unit_of(21, 3), &unit_of(21, 3), 10.0, 15.0, 20.0);
+    check_clamp(&unit_of(34, 3), &unit_of(21, 3), &unit_of(25, 3), 10.0, 15.0, 20.0);
+    check_clamp(&unit_of(34, 3), &unit_of(21, 3), &unit_of(33, 3), 10.0, 15.0, 20.0);
+    check_clamp(&unit_of(34, 3), &unit_of(21, 3), &unit_of(35, 3), 10.0, 15.0, 20.0);
+    check_clamp(&unit_of(34, 3), &unit_of(25, 3), &unit_of(34, 3), 10.0, 15.0, 20.0);
+    check_clamp(&unit_of(34, 3), &unit_of(25, 3), &unit_of(0, 3), 10.0, 15.0, 20.0);
+    check_clamp(&unit_of(34, 3), &unit_of(25, 3), &unit_of(2, 3), 10.0, 15.0, 20.0);
+    check_clamp(&unit_of(34, 3), &unit_of(25, 3), &unit_of(7, 3), 10.0, 15.0, 20.0);
+    check_clamp(&unit_of(34, 3), &unit_of(25, 3), &unit_of(21, 3), 10.0, 15.0, 20.0);
+    check_clamp(&unit_of(34, 3), &unit_of(25, 3), &unit_of(25, 3), 10.0, 15.0, 20.0);
+    check_clamp(&unit_of(34, 3), &unit_of(25, 3), &unit_of(33, 3), 10.0, 15.0, 20.0);
+    check_clamp(&unit_of(34, 3), &unit_of(25, 3), &unit_of(35, 3), 10.0, 15.0, 20.0);
+    check_clamp(&unit_of(34, 3), &unit_of(33, 3), &unit_of(34, 3), 10.0, 15.0, 20.0);
+    check_clamp(&unit_of(34, 3), &unit_of(33, 3), &unit_of(0, 3), 10.0, 15.0, 20.0);
+    check_clamp(&unit_of(34, 3), &unit_of(33, 3), &unit_of(2, 3), 10.0, 15.0, 20.0);
+    check_clamp(&unit_of(34, 3), &unit_of(33, 3), &unit_of(7, 3), 10.0, 15.0, 20.0);
+    check_clamp(&unit_of(34, 3), &unit_of(33, 3), &unit_of(21, 3), 10.0, 15.0, 20.0);
+    check_clamp(&unit_of(34, 3), &unit_of(33, 3), &unit_of(25, 3), 10.0, 15.0, 20.0);
+    check_clamp(&unit_of(34, 3), &unit_of(33, 3), &unit_of(33, 3), 10.0, 15.0, 20.0);
+    check_clamp(&unit_of(34, 3), &unit_of(33, 3), &unit_of(35, 3), 10.0, 15.0, 20.0);
+    check_clamp(&unit_of(34, 3), &unit_of(35, 3), &unit_of(34, 3), 10.0, 15.0, 20.0);
+    check_clamp(&unit_of(34, 3), &unit_of(35, 3), &unit_of(0, 3), 10.0, 15.0, 20.0);
+    check_clamp(&unit_of(34, 3), &unit_of(35, 3), &unit_of(2, 3), 10.0, 15.0, 20.0);
+    check_clamp(&unit_of(34, 3), &unit_of(35, 3), &unit_of(7, 3), 10.0, 15.0, 20.0);
+    check_clamp(&unit_of(34, 3), &unit_of(35, 3), &unit_of(21, 3), 10.0, 15.0, 20.0);
+    check_clamp(&unit_of(34, 3), &unit_of(35, 3), &unit_of(25, 3), 10.0, 15.0, 20.0);
+    check_clamp(&unit_of(34, 3), &unit_of(35, 3), &unit_of(33, 3), 10.0, 15.0, 20.0);
+    check_clamp(&unit_of(34, 3), &unit_of(35, 3), &unit_of(35, 3), 10.0, 15.0, 20.0);
+    kani::cover!(true);
+}
+
+//@ ob: id=C16/K/clamp_all_reps_min_px kind=K-bounded tier=thorough fns=SassCalculation::clamp,Number::convert also=C01 bound="min unit = px; value and max units over the 8 class representatives {none,px,in,em,deg,s,%,unknown}; magnitudes 10/15/20"
+//@ desc: clamp contract (see clamp_min_*) over the wider representative set
+#[kani::proof]
+#[kani::unwind(2)]
+#[kani::stub(crate::value::Number::convert, convert_contract)]
+#[kani::stub(SassCalculation::verify_compatible_numbers, vcn_stub)]
+#[kani::stub(alloc::fmt::format, format_stub)]
+fn c16_clamp_all_reps_min_px() {
+    check_clamp(&unit_of(0, 3), &unit_of(34, 3), &unit_of(34, 3), 10.0, 15.0, 20.0);
+    check_clamp(&unit_of(0, 3), &unit_of(34, 3), &unit_of(0, 3), 10.0, 15.0, 20.0);
+    check_clamp(&unit_of(0, 3), &unit_of(34, 3), &unit_of(2, 3), 10.0, 15.0, 20.0);
+    check_clamp(&unit_of(0, 3), &unit_of(34, 3), &unit_of(7, 3), 10.0, 15.0, 20.0);
+    check_clamp(&unit_of(0, 3), &unit_of(34, 3), &unit_of(21, 3), 10.0, 15.0, 20.0);
+    check_clamp(&unit_of(0, 3), &unit_of(34, 3), &unit_of(25, 3), 10.0, 15.0, 20.0);
+    check_clamp(&unit_of(0, 3), &unit_of(34, 3), &unit_of(33, 3), 10.0, 15.0, 20.0);
+    check_clamp(&unit_of(0, 3), &unit_of(34, 3), &unit_of(35, 3), 10.0, 15.0, 20.0);
+    check_clamp(&unit_of(0, 3), &unit_of(0, 3), &unit_of(34, 3), 10.0, 15.0, 20.0);
+    check_clamp(&unit_of(0, 3), &unit_of(0, 3), &unit_of(0, 3), 10.0, 15.0, 20.0);
+    check_clamp(&unit_of(0, 3), &unit_of(0, 3), &unit_of(2, 3), 10.0, 15.0, 20.0);
+    check_clamp(&unit_of(0, 3), &unit_of(0, 3), &unit_of(7, 3), 10.0, 15.0, 20.0);
+    check_clamp(&unit_of(0, 3), &unit_of(0, 3), &unit_of(21, 3), 10.0, 15.0, 20.0);
+    check_clamp(&unit_of(0, 3), &unit_of(0, 3), &unit_of(25, 3), 10.0, 15.0, 20.0);
+    check_clamp(&unit_of(0, 3), &unit_of(0, 3), &unit_of(33, 3), 10.0, 15.0, 20.0);
+    check_clamp(&unit_of(0, 3), &unit_of(0, 3), &unit_of(35, 3), 10.0, 15.0, 20.0);
+    check_clamp(&unit_of(0, 3), &unit_of(2, 3), &unit_of(34, 3), 10.0, 15.0, 20.0);
+    check_clamp(&unit_of(0, 3), &unit_of(2, 3), &unit_of(0, 3), 10.0, 15.0, 20.0);
+    check_clamp(&unit_of(0, 3), &unit_of(2, 3), &unit_of(2, 3), 10.0, 15.0, 20.0);
+    check_clamp(&unit_of(0, 3), &unit_of(2, 3), &unit_of(7, 3), 10.0, 15.0, 20.0);
+    check_clamp(&unit_of(0, 3), &unit_of(2, 3), &unit_of(21, 3), 10.0, 15.0, 20.0);
+    check_clamp(&unit_of(0, 3), &unit_of(2, 3), &unit_of(25, 3), 10.0, 15.0, 20.0);
+    check_clamp(&unit_of(0, 3), &unit_of(2, 3), &unit_of(33, 3), 10.0, 15.0, 20.0);
+    check_clamp(&unit_of(0, 3), &unit_of(2, 3), &unit_of(35, 3), 10.0, 15.0, 20.0);
+    check_clamp(&unit_of(0, 3), &unit_of(7, 3), &unit_of(34, 3), 10.0, 15.0, 20.0);
+    check_clamp(&unit_of(0, 3), &unit_of(7, 3), &unit_of(0, 3), 10.0, 15.0, 20.0);
+    check_clamp(&unit_of(0, 3), &unit_of(7, 3), &unit_of(2, 3), 10.0, 15.0, 20.0);
+    check_clamp(&unit_of(0, 3), &unit_of(7, 3), &unit_of(7, 3), 10.0, 15.0, 20.0);
+    check_clamp(&unit_of(0, 3), &unit_of(7, 3), &unit_of(21, 3), 10.0, 15.0, 20.0);
+    check_clamp(&unit_of(0, 3), &unit_of(7, 3), &unit_of(25, 3), 10.0, 15.0, 20.0);
+    check_clamp(&unit_of(0, 3), &unit_of(7, 3), &unit_of(33, 3), 10.0, 15.0, 20.0);
+    check_clamp(&unit_of(0, 3), &unit_of(7, 3), &unit_of(35, 3), 10.0, 15.0, 20.0);
+    check_clamp(&unit_of(0, 3), &unit_of(21, 3), &unit_of(34, 3), 10.0, 15.0, 20.0);
+    check_clamp(&unit_of(0, 3), &unit_of(21, 3), &unit_of(0, 3), 10.0, 15.0, 20.0);
+    check_clamp(&unit_of(0, 3), &unit_of(21, 3), &unit_of(2, 3), 10.0, 15.0, 20.0);
+    check_clamp(&unit_of(0, 3), &unit_of(21, 3), &unit_of(7, 3), 10.0, 15.0, 20.0);
+    check_clamp(&unit_of(0, 3), &unit_of(21, 3), &unit_of(21, 3), 10.0, 15.0, 20.0);
+    check_clamp(&unit_of(0, 3), &unit_of(21, 3), &unit_of(25, 3), 10.0, 15.0, 20.0);
+    check_clamp(&unit_of(0, 3), &unit_of(21, 3), &unit_of(33, 3), 10.0, 15.0, 20.0);
+    check_clamp(&unit_of(0, 3), &unit_of(21, 3), &unit_of(35, 3), 10.0, 15.0, 20.0);
+    check_clamp(&unit_of(0, 3), &unit_of(25, 3), &unit_of(34, 3), 10.0, 15.0, 20.0);
+    check_clamp(&unit_of(0, 3), &unit_of(25, 3), &unit_of(0, 3), 10.0, 15.0, 20.0);
+    check_clamp(&unit_of(0, 3), &unit_of(25, 3), &unit_of(2, 3), 10.0, 15.0, 20.0);
+    check_clamp(&unit_of(0, 3), &unit_of(25, 3), &unit_of(7, 3), 10.0, 15.0, 20.0);
+    check_clamp(&unit_of(0, 3), &unit_of(25, 3), &unit_of(21, 3), 10.0, 15.0, 20.0);
+    check_clamp(&unit_of(0, 3), &unit_of(25, 3), &unit_of(25, 3), 10.0, 15.0, 20.0);
+    check_clamp(&unit_of(0, 3), &unit_of(25, 3), &unit_of(33, 3), 10.0, 15.0, 20.0);
+    check_clamp(&unit_of(0, 3), &unit_of(25, 3), &unit_of(35, 3), 10.0, 15.0, 20.0);
+    check_clamp(&unit_of(0, 3), &unit_of(33, 3), &unit_of(34, 3), 10.0, 15.0, 20.0);
+    check_clamp(&unit_of(0, 3), &unit_of(33, 3), &unit_of(0, 3), 10.0, 15.0, 20.0);
+    check_clamp(&unit_of(0, 3), &unit_of(33, 3), &unit_of(2, 3), 10.0, 15.0, 20.0);
+    check_clamp(&unit_of(0, 3), &unit_of(33, 3), &unit_of(7, 3), 10.0, 15.0, 20.0);
+    check_clamp(&unit_of(0, 3), &unit_of(33, 3), &unit_of(21, 3), 10.0, 15.0, 20.0);
+    check_clamp(&unit_of(0, 3), &unit_of(33, 3), &unit_of(25, 3), 10.0, 15.0, 20.0);
+    check_clamp(&unit_of(0, 3), &unit_of(33, 3), &unit_of(33, 3), 10.0, 15.0, 20.0);
+    check_clamp(&unit_of(0, 3), &unit_of(33, 3), &unit_of(35, 3), 10.0, 15.0, 20.0);
+    check_clamp(&unit_of(0, 3), &unit_of(35, 3), &unit_of(34, 3), 10.0, 15.0, 20.0);
+    check_clamp(&unit_of(0, 3), &unit_of(35, 3), &unit_of(0, 3), 10.0, 15.0, 20.0);
+    check_clamp(&unit_of(0, 3), &unit_of(35, 3), &unit_of(2, 3), 10.0, 15.0, 20.0);
+    check_clamp(&unit_of(0, 3), &unit_of(35, 3), &unit_of(7, 3), 10.0, 15.0, 20.0);
+    check_clamp(&unit_of(0, 3), &unit_of(35, 3), &unit_of(21, 3), 10.0, 15.0, 20.0);
+    check_clamp(&unit_of(0, 3), &unit_of(35, 3), &unit_of(25, 3), 10.0, 15.0, 20.0);
+    check_clamp(&unit_of(0, 3), &unit_of(35, 3), &unit_of(33, 3), 10.0, 15.0, 20.0);
+    check_clamp(&unit_of(0, 3), &unit_of(35, 3), &unit_of(35, 3), 10.0, 15.0, 20.0);
+    kani::cover!(true);
+}
+
+//@ ob: id=C16/K/clamp_all_reps_min_in kind=K-bounded tier=thorough fns=SassCalculation::clamp,Number::convert also=C01 bound="min unit = in; value and max units over the 8 class representatives {none,px,in,em,deg,s,%,unknown}; magnitudes 10/15/20"
+//@ desc: clamp contract (see clamp_min_*) over the wider representative set
+#[kani::proof]
+#[kani::unwind(2)]
+#[kani::stub(crate::value::Number::convert, convert_contract)]
+#[kani::stub(SassCalculation::verify_compatible_numbers, vcn_stub)]
+#[kani::stub(alloc::fmt::format, format_stub)]
+fn c16_clamp_all_reps_min_in() {
+    check_clamp(&unit_of(2, 3), &unit_of(34, 3), &unit_of(34, 3), 10.0, 15.0, 20.0);
+    check_clamp(&unit_of(2, 3), &unit_of(34, 3), &unit_of(0, 3), 10.0, 15.0, 20.0);
+    check_clamp(&unit_of(2, 3), &unit_of(34, 3), &unit_of(2, 3), 10.0, 15.0, 20.0);
+    check_clamp(&unit_of(2, 3), &unit_of(34, 3), &unit_of(7, 3), 10.0, 15.0, 20.0);
+    check_clamp(&unit_of(2, 3), &unit_of(34, 3), &unit_of(21, 3), 10.0, 15.0, 20.0);
+    check_clamp(&unit_of(2, 3), &unit_of(34, 3), &unit_of(25, 3), 10.0, 15.0, 20.0);
+    check_clamp(&unit_of(2, 3), &unit_of(34, 3), &unit_of(33, 3), 10.0, 15.0, 20.0);
+    check_clamp(&unit_of(2, 3), &unit_of(34, 3), &unit_of(35, 3), 10.0, 15.0, 20.0);
+    check_clamp(&unit_of(2, 3), &unit_of(0, 3), &unit_of(34, 3), 10.0, 15.0, 20.0);
+    check_clamp(&unit_of(2, 3), &unit_of(0, 3), &unit_of(0, 3), 10.0, 15.0, 20.0);
+    check_clamp(&unit_of(2, 3), &unit_of(0, 3), &unit_of(2, 3), 10.0, 15.0, 20.0);
+    check_clamp(&unit_of(2, 3), &unit_of(0, 3), &unit_of(7, 3), 10.0, 15.0, 20.0);
+    check_clamp(&unit_of(2, 3), &unit_of(0, 3), &unit_of(21, 3), 10.0, 15.0, 20.0);
+    check_clamp(&unit_of(2, 3), &unit_of(0, 3), &unit_of(25, 3), 10.0, 15.0, 20.0);
+    check_clamp(&unit_of(2, 3), &unit_of(0, 3), &unit_of(33, 3), 10.0, 15.0, 20.0);
+    check_clamp(&unit_of(2, 3), &unit_of(0, 3), &unit_of(35, 3), 10.0, 15.0, 20.0);
+    check_clamp(&unit_of(2, 3), &unit_of(2, 3), &unit_of(34, 3), 10.0, 15.0, 20.0);
+    check_clamp(&unit_of(2, 3), &unit_of(2, 3), &unit_of(0, 3), 10.0, 15.0, 20.0);
+    check_clamp(&unit_of(2, 3), &unit_of(2, 3), &unit_of(2, 3), 10.0, 15.0, 20.0);
+    check_clamp(&unit_of(2, 3), &unit_of(2, 3), &unit_of(7, 3), 10.0, 15.0, 20.0);
+    check_clamp(&unit_of(2, 3), &unit_of(2, 3), &unit_of(21, 3), 10.0, 15.0, 20.0);
+    check_clamp(&unit_of(2, 3), &unit_of(2, 3), &unit_of(25, 3), 10.0, 15.0, 20.0);
+    check_clamp(&unit_of(2, 3), &unit_of(2, 3), &unit_of(33, 3), 10.0, 15.0, 20.0);
+    check_clamp(&unit_of(2, 3), &unit_of(2, 3), &unit_of(35, 3), 10.0, 15.0, 20.0);
+    check_clamp(&unit_of(2, 3), &unit_of(7, 3), &unit_of(34, 3), 10.0, 15.0, 20.0);
+    check_clamp(&unit_of(2, 3), &unit_of(7, 3), &unit_of(0, 3), 10.0, 15.0, 20.0);
+    check_clamp(&unit_of(2, 3), &unit_of(7, 3), &unit_of(2, 3), 10.0, 15.0, 20.0);
+    check_clamp(&unit_of(2, 3), &unit_of(7, 3), &unit_of(7, 3), 10.0, 15.0, 20.0);
+    check_clamp(&unit_of(2, 3), &unit_of(7, 3), &unit_of(21, 3), 10.0, 15.0, 20.0);
+    check_clamp(&unit_of(2, 3), &unit_of(7, 3), &unit_of(25, 3), 10.0, 15.0, 20.0);
+    check_clamp(&unit_of(2, 3), &unit_of(7, 3), &unit_of(33, 3), 10.0, 15.0, 20.0);
+    check_clamp(&unit_of(2, 3), &unit_of(7, 3), &unit_of(35, 3), 10.0, 15.0, 20.0);
+    check_clamp(&unit_of(2, 3), &unit_of(21, 3), &unit_of(34, 3), 10.0, 15.0, 20.0);
+    check_clamp(&unit_of(2, 3), &unit_of(21, 3), &unit_of(0, 3), 10.0, 15.0, 20.0);
+    check_clamp(&unit_of(2, 3), &unit_of(21, 3), &unit_of(2, 3), 10.0, 15.0, 20.0);
+    check_clamp(&unit_of(2, 3), &unit_of(21, 3), &unit_of(7, 3), 10.0, 15.0, 20.0);
+    check_clamp(&unit_of(2, 3), &unit_of(21, 3), &unit_of(21, 3), 10.0, 15.0, 20.0);
+    check_clamp(&unit_of(2, 3), &unit_of(21, 3), &unit_of(25, 3), 10.0, 15.0, 20.0);
+    check_clamp(&unit_of(2, 3), &unit_of(21, 3), &unit_of(33, 3), 10.0, 15.0, 20.0);
+    check_clamp(&unit_of(2, 3), &unit_of(21, 3), &unit_of(35, 3), 10.0, 15.0, 20.0);
+    check_clamp(&unit_of(2, 3), &unit_of(25, 3), &unit_of(34, 3), 10.0, 15.0, 20.0);
+    check_clamp(&unit_of(2, 3), &unit_of(25, 3), &unit_of(0, 3), 10.0, 15.0, 20.0);
+    check_clamp(&unit_of(2, 3), &unit_of(25, 3), &unit_of(2, 3), 10.0, 15.0, 20.0);
+    check_clamp(&unit_of(2, 3), &unit_of(25, 3), &unit_of(7, 3), 10.0, 15.0, 20.0);
+    check_clamp(&unit_of(2, 3), &unit_of(25, 3), &unit_of(21, 3), 10.0, 15.0, 20.0);
+    check_clamp(&unit_of(2, 3), &unit_of(25, 3), &unit_of(25, 3), 10.0, 15.0, 20.0);
+    check_clamp(&unit_of(2, 3), &unit_of(25, 3), &unit_of(33, 3), 10.0, 15.0, 20.0);
+    check_clamp(&unit_of(2, 3), &unit_of(25, 3), &unit_of(35, 3), 10.0, 15.0, 20.0);
+    check_clamp(&unit_of(2, 3), &unit_of(33, 3), &unit_of(34, 3), 10.0, 15.0, 20.0);
+    check_clamp(&unit_of(2, 3), &unit_of(33, 3), &unit_of(0, 3), 10.0, 15.0, 20.0);
+    check_clamp(&unit_of(2, 3), &unit_of(33, 3), &unit_of(2, 3), 10.0, 15.0, 20.0);
+    check_clamp(&unit_of(2, 3), &unit_of(33, 3), &unit_of(7, 3), 10.0, 15.0, 20.0);
+    check_clamp(&unit_of(2, 3), &unit_of(33, 3), &unit_of(21, 3), 10.0, 15.0, 20.0);
+    check_clamp(&unit_of(2, 3), &unit_of(33, 3), &unit_of(25, 3), 10.0, 15.0, 20.0);
+    check_clamp(&unit_of(2, 3), &unit_of(33, 3), &unit_of(33, 3), 10.0, 15.0, 20.0);
+    check_clamp(&unit_of(2, 3), &unit_of(33, 3), &unit_of(35, 3), 10.0, 15.0, 20.0);
+    check_clamp(&unit_of(2, 3), &unit_of(35, 3), &unit_of(34, 3), 10.0, 15.0, 20.0);
+    check_clamp(&unit_of(2, 3), &unit_of(35, 3), &unit_of(0, 3), 10.0, 15.0, 20.0);
+    check_clamp(&unit_of(2, 3), &unit_of(35, 3), &unit_of(2, 3), 10.0, 15.0, 20.0);
+    check_clamp(&unit_of(2, 3), &unit_of(35, 3), &unit_of(7, 3), 10.0, 15.0, 20.0);
+    check_clamp(&unit_of(2, 3), &unit_of(35, 3), &unit_of(21, 3), 10.0, 15.0, 20.0);
+    check_clamp(&unit_of(2, 3), &unit_of(35, 3), &unit_of(25, 3), 10.0, 15.0, 20.0);
+    check_clamp(&unit_of(2, 3), &unit_of(35, 3), &unit_of(33, 3), 10.0, 15.0, 20.0);
+    check_clamp(&unit_of(2, 3), &unit_of(35, 3), &unit_of(35, 3), 10.0, 15.0, 20.0);
+    kani::cover!(true);
+}
+
+//@ ob: id=C16/K/clamp_all_reps_min_em kind=K-bounded tier=thorough fns=SassCalculation::clamp,Number::convert also=C01 bound="min unit = em; value and max units over the 8 class representatives {none,px,in,em,deg,s,%,unknown}; magnitudes 10/15/20"
+//@ desc: clamp contract (see clamp_min_*) over the wider representative set
+#[kani::proof]
+#[kani::unwind(2)]
+#[kani::stub(crate::value::Number::convert, convert_contract)]
+#[kani::stub(SassCalculation::verify_compatible_numbers, vcn_stub)]
+#[kani::stub(alloc::fmt::format, format_stub)]
+fn c16_clamp_all_reps_min_em() {
+    check_clamp(&unit_of(7, 3), &unit_of(34, 3), &unit_of(34, 3), 10.0, 15.0, 20.0);
+    check_clamp(&unit_of(7, 3), &unit_of(34, 3), &unit_of(0, 3), 10.0, 15.0, 20.0);
+    check_clamp(&unit_of(7, 3), &unit_of(34, 3), &unit_of(2, 3), 10.0, 15.0, 20.0);
+    check_clamp(&unit_of(7, 3), &unit_of(34, 3), &unit_of(7, 3), 10.0, 15.0, 20.0);
+    check_clamp(&unit_of(7, 3), &unit_of(34, 3), &unit_of(21, 3), 10.0, 15.0, 20.0);
+    check_clamp(&unit_of(7, 3), &unit_of(34, 3), &unit_of(25, 3), 10.0, 15.0, 20.0);
+    check_clamp(&unit_of(7, 3), &unit_of(34, 3), &unit_of(33, 3), 10.0, 15.0, 20.0);
+    check_clamp(&unit_of(7, 3), &unit_of(34, 3), &unit_of(35, 3), 10.0, 15.0, 20.0);
+    check_clamp(&unit_of(7, 3), &unit_of(0, 3), &unit_of(34, 3), 10.0, 15.0, 20.0);
+    check_clamp(&unit_of(7, 3), &unit_of(0, 3), &unit_of(0, 3), 10.0, 15.0, 20.0);
+    check_clamp(&unit_of(7, 3), &unit_of(0, 3), &unit_of(2, 3), 10.0, 15.0, 20.0);
+    check_clamp(&unit_of(7, 3), &unit_of(0, 3), &unit_of(7, 3), 10.0, 15.0, 20.0);
+    check_clamp(&unit_of(7, 3), &unit_of(0, 3), &unit_of(21, 3), 10.0, 15.0, 20.0);
+    check_clamp(&unit_of(7, 3), &unit_of(0, 3), &unit_of(25, 3), 10.0, 15.0, 20.0);
+    check_clamp(&unit_of(7, 3), &unit_of(0, 3), &unit_of(33, 3), 10.0, 15.0, 20.0);
+    check_clamp(&unit_of(7, 3), &unit_of(0, 3), &unit_of(35, 3), 10.0, 15.0, 20.0);
+    check_clamp(&unit_of(7, 3), &unit_of(2, 3), &unit_of(34, 3), 10.0, 15.0, 20.0);
+    check_clamp(&unit_of(7, 3), &unit_of(2, 3), &unit_of(0, 3), 10.0, 15.0, 20.0);
+    check_clamp(&unit_of(7, 3), &unit_of(2, 3), &unit_of(2, 3), 10.0, 15.0, 20.0);
+    check_clamp(&unit_of(7, 3), &unit_of(2, 3), &unit_of(7, 3), 10.0, 15.0, 20.0);
+    check_clamp(&unit_of(7, 3), &unit_of(2, 3), &unit_of(21, 3), 10.0, 15.0, 20.0);
+    check_clamp(&unit_of(7, 3), &unit_of(2, 3), &unit_of(25, 3), 10.0, 15.0, 20.0);
+    check_clamp(&unit_of(7, 3), &unit_of(2, 3), &unit_of(33, 3), 10.0, 15.0, 20.0);
+    check_clamp(&unit_of(7, 3), &unit_of(2, 3), &unit_of(35, 3), 10.0, 15.0, 20.0);
+    check_clamp(&unit_of(7, 3), &unit_of(7, 3), &unit_of(34, 3), 10.0, 15.0, 20.0);
+    check_clamp(&unit_of(7, 3), &unit_of(7, 3), &unit_of(0, 3), 10.0, 15.0, 20.0);
+    check_clamp(&unit_of(7, 3), &unit_of(7, 3), &unit_of(2, 3), 10.0, 15.0, 20.0);
+    check_clamp(&unit_of(7, 3), &unit_of(7, 3), &unit_of(7, 3), 10.0, 15.0, 20.0);
+    check_clamp(&unit_of(7, 3), &unit_of(7, 3), &unit_of(21, 3), 10.0, 15.0, 20.0);
+    check_clamp(&unit_of(7, 3), &unit_of(7, 3), &unit_of(25, 3), 10.0, 15.0, 20.0);
+    check_clamp(&unit_of(7, 3), &unit_of(7, 3), &unit_of(33, 3), 10.0, 15.0, 20.0);
+    check_clamp(&unit_of(7, 3), &unit_of(7, 3), &unit_of(35, 3), 10.0, 15.0, 20.0);
+    check_clamp(&unit_of(7, 3), &unit_of(21, 3), &unit_of(34, 3), 10.0, 15.0, 20.0);
+    check_clamp(&unit_of(7, 3), &unit_of(21, 3), &unit_of(0, 3), 10.0, 15.0, 20.0);
+    check_clamp(&unit_of(7, 3), &unit_of(21, 3), &unit_of(2, 3), 10.0, 15.0, 20.0);
+    check_clamp(&unit_of(7, 3), &unit_of(21, 3), &unit_of(7, 3), 10.0, 15.0, 20.0);
+    check_clamp(&unit_of(7, 3), &unit_of(21, 3), &unit_of(21, 3), 10.0, 15.0, 20.0);
+    check_clamp(&unit_of(7, 3), &unit_of(21, 3), &unit_of(25, 3), 10.0, 15.0, 20.0);
+    check_clamp(&unit_of(7, 3), &unit_of(21, 3), &unit_of(33, 3), 10.0, 15.0, 20.0);
+    check_clamp(&unit_of(7, 3), &unit_of(21, 3), &unit_of(35, 3), 10.0, 15.0, 20.0);
+    check_clamp(&unit_of(7, 3), &unit_of(25, 3), &unit_of(34, 3), 10.0, 15.0, 20.0);
+    check_clamp(&unit_of(7, 3), &unit_of(25, 3), &unit_of(0, 3), 10.0, 15.0, 20.0);
+    check_clamp(&unit_of(7, 3), &unit_of(25, 3), &unit_of(2, 3), 10.0, 15.0, 20.0);
+    check_clamp(&unit_of(7, 3), &unit_of(25, 3), &unit_of(7, 3), 10.0, 15.0, 20.0);
+    check_clamp(&unit_of(7, 3), &unit_of(25, 3), &unit_of(21, 3), 10.0, 15.0, 20.0);
+    check_clamp(&unit_of(7, 3), &unit_of(25, 3), &unit_of(25, 3), 10.0, 15.0, 20.0);
+    check_clamp(&unit_of(7, 3), &unit_of(25, 3), &unit_of(33, 3), 10.0, 15.0, 20.0);
+    check_clamp(&unit_of(7, 3), &unit_of(25, 3), &unit_of(35, 3), 10.0, 15.0, 20.0);
+    check_clamp(&unit_of(7, 3), &unit_of(33, 3), &unit_of(34, 3), 10.0, 15.0, 20.0);
+    check_clamp(&unit_of(7, 3), &unit_of(33, 3), &unit_of(0, 3), 10.0, 15.0, 20.0);
+    check_clamp(&unit_of(7, 3), &unit_of(33, 3), &unit_of(2, 3), 10.0, 15.0, 20.0);
+    check_clamp(&unit_of(7, 3), &unit_of(33, 3), &unit_of(7, 3), 10.0, 15.0, 20.0);
+    check_clamp(&unit_of(7, 3), &unit_of(33, 3), &unit_of(21, 3), 10.0, 15.0, 20.0);
+    check_clamp(&unit_of(7, 3), &unit_of(33, 3), &unit_of(25, 3), 10.0, 15.0, 20.0);
+    check_clamp(&unit_of(7, 3), &unit_of(33, 3), &unit_of(33, 3), 10.0, 15.0, 20.0);
+    check_clamp(&unit_of(7, 3), &unit_of(33, 3), &unit_of(35, 3), 10.0, 15.0, 20.0);
+    check_clamp(&unit_of(7, 3), &unit_of(35, 3), &unit_of(34, 3), 10.0, 15.0, 20.0);
+    check_clamp(&unit_of(7, 3), &unit_of(35, 3), &unit_of(0, 3), 10.0, 15.0, 20.0);
+    check_clamp(&unit_of(7, 3), &unit_of(35, 3), &unit_of(2, 3), 10.0, 15.0, 20.0);
+    check_clamp(&unit_of(7, 3), &unit_of(35, 3), &unit_of(7, 3), 10.0, 15.0, 20.0);
+    check_clamp(&unit_of(7, 3), &unit_of(35, 3), &unit_of(21, 3), 10.0, 15.0, 20.0);
+    check_clamp(&unit_of(7, 3), &unit_of(35, 3), &unit_of(25, 3), 10.0, 15.0, 20.0);
+    check_clamp(&unit_of(7, 3), &unit_of(35, 3), &unit_of(33, 3), 10.0, 15.0, 20.0);
+    check_clamp(&unit_of(7, 3), &unit_of(35, 3), &unit_of(35, 3), 10.0, 15.0, 20.0);
+    kani::cover!(true);
+}
+
+//@ ob: id=C16/K/clamp_all_reps_min_deg kind=K-bounded tier=thorough fns=SassCalculation::clamp,Number::convert also=C01 bound="min unit = deg; value and max units over the 8 class representatives {none,px,in,em,deg,s,%,unknown}; magnitudes 10/15/20"
+//@ desc: clamp contract (see clamp_min_*) over the wider representative set
+#[kani::proof]
+#[kani::unwind(2)]
+#[kani::stub(crate::value::Number::convert, convert_contract)]
+#[kani::stub(SassCalculation::verify_compatible_numbers, vcn_stub)]
+#[kani::stub(alloc::fmt::format, format_stub)]
+fn c16_clamp_all_reps_min_deg() {
+    check_clamp(&unit_of(21, 3), &unit_of(34, 3), &unit_of(34, 3), 10.0, 15.0, 20.0);
+    check_clamp(&unit_of(21, 3), &unit_of(34, 3), &unit_of(0, 3), 10.0, 15.0, 20.0);
+    check_clamp(&unit_of(21, 3), &unit_of(34, 3), &unit_of(2, 3), 10.0, 15.0, 20.0);
+    check_clamp(&unit_of(21, 3), &unit_of(34, 3), &unit_of(7, 3), 10.0, 15.0, 20.0);
+    check_clamp(&unit_of(21, 3), &unit_of(34, 3), &unit_of(21, 3), 10.0, 15.0, 20.0);
+    check_clamp(&unit_of(21, 3), &unit_of(34, 3), &unit_of(25, 3), 10.0, 15.0, 20.0);
+    check_clamp(&unit_of(21, 3), &unit_of(34, 3), &unit_of(33, 3), 10.0, 15.0, 20.0);
+    check_clamp(&unit_of(21, 3), &unit_of(34, 3), &unit_of(35, 3), 10.0, 15.0, 20.0);
+    check_clamp(&unit_of(21, 3), &unit_of(0, 3), &unit_of(34, 3), 10.0, 15.0, 20.0);
+    check_clamp(&unit_of(21, 3), &unit_of(0, 3), &unit_of(0, 3), 10.0, 15.0, 20.0);
+    check_clamp(&unit_of(21, 3), &unit_of(0, 3), &unit_of(2, 3), 10.0, 15.0, 20.0);
+    check_clamp(&unit_of(21, 3), &unit_of(0, 3), &unit_of(7, 3), 10.0, 15.0, 20.0);
+    check_clamp(&unit_of(21, 3), &unit_of(0, 3), &unit_of(21, 3), 10.0, 15.0, 20.0);
+    check_clamp(&unit_of(21, 3), &unit_of(0, 3), &unit_of(25, 3), 10.0, 15.0, 20.0);
+    check_clamp(&unit_of(21, 3), &unit_of(0, 3), &unit_of(33, 3), 10.0, 15.0, 20.0);
+    check_clamp(&unit_of(21, 3), &unit_of(0, 3), &unit_of(35, 3), 10.0, 15.0, 20.0);
+    check_clamp(&unit_of(21, 3), &unit_of(2, 3), &unit_of(34, 3), 10.0, 15.0, 20.0);
+    check_clamp(&unit_of(21, 3), &unit_of(2, 3), &unit_of(0, 3), 10.0, 15.0, 20.0);
+    check_clamp(&unit_of(21, 3), &unit_of(2, 3), &unit_of(2, 3), 10.0, 15.0, 20.0);
+    check_clamp(&unit_of(21, 3), &unit_of(2, 3), &unit_of(7, 3), 10.0, 15.0, 20.0);
+    check_clamp(&unit_of(21, 3), &unit_of(2, 3), &unit_of(21, 3), 10.0, 15.0, 20.0);
+    check_clamp(&unit_of(21, 3), &unit_of(2, 3), &unit_of(25, 3), 10.0, 15.0, 20.0);
+    check_clamp(&unit_of(21, 3), &unit_of(2, 3), &unit_of(33, 3), 10.0, 15.0, 20.0);
+    check_clamp(&unit_of(21, 3), &unit_of(2, 3), &unit_of(35, 3), 10.0, 15.0, 20.0);
+    check_clamp(&unit_of(21, 3), &unit_of(7, 3), &unit_of(34, 3), 10.0, 15.0, 20.0);
+    check_clamp(&unit_of(21, 3), &unit_of(7, 3), &unit_of(0, 3), 10.0, 15.0, 20.0);
+    check_clamp(&unit_of(21, 3), &unit_of(7, 3), &unit_of(2, 3), 10.0, 15.0, 20.0);
+    check_clamp(&unit_of(21, 3), &unit_of(7, 3), &unit_of(7, 3), 10.0, 15.0, 20.0);
+    check_clamp(&unit_of(21, 3), &unit_of(7, 3), &unit_of(21, 3), 10.0, 15.0, 20.0);
+    check_clamp(&unit_of(21, 3), &unit_of(7, 3), &unit_of(25, 3), 10.0, 15.0, 20.0);
+    check_clamp(&unit_of(21, 3), &unit_of(7, 3), &unit_of(33, 3), 10.0, 15.0, 20.0);
+    check_clamp(&unit_of(21, 3), &unit_of(7, 3), &unit_of(35, 3), 10.0, 15.0, 20.0);
+    check_clamp(&unit_of(21, 3), &unit_of(21, 3), &unit_of(34, 3), 10.0, 15.0, 20.0);
+    check_clamp(&unit_of(21, 3), &unit_of(21, 3), &unit_of(0, 3), 10.0, 15.0, 20.0);
+    check_clamp(&unit_of(21, 3), &unit_of(21, 3), &unit_of(2, 3), 10.0, 15.0, 20.0);
+    check_clamp(&unit_of(21, 3), &unit_of(21, 3), &unit_of(7, 3), 10.0, 15.0, 20.0);
+    check_clamp(&unit_of(21, 3), &unit_of(21, 3), &unit_of(21, 3), 10.0, 15.0, 20.0);
+    check_clamp(&unit_of(21, 3), &unit_of(21, 3), &unit_of(25, 3), 10.0, 15.0, 20.0);
+    check_clamp(&unit_of(21, 3), &unit_of(21, 3), &unit_of(33, 3), 10.0, 15.0, 20.0);
+    check_clamp(&unit_of(21, 3), &unit_of(21, 3), &unit_of(35, 3), 10.0, 15.0, 20.0);
+    check_clamp(&unit_of(21, 3), &unit_of(25, 3), &unit_of(34, 3), 10.0, 15.0, 20.0);
+    check_clamp(&unit_of(21, 3), &unit_of(25, 3), &unit_of(0, 3), 10.0, 15.0, 20.0);
+    check_clamp(&unit_of(21, 3), &unit_of(25, 3), &unit_of(2, 3), 10.0, 15.0, 20.0);
+    check_clamp(&unit_of(21, 3), &unit_of(25, 3), &unit_of(7, 3), 10.0, 15.0, 20.0);
+    check_clamp(&unit_of(21, 3), &unit_of(25, 3), &unit_of(21, 3), 10.0, 15.0, 20.0);
+    check_clamp(&unit_of(21, 3), &unit_of(25, 3), &unit_of(25, 3), 10.0, 15.0, 20.0);
+    check_clamp(&unit_of(21, 3), &unit_of(25, 3), &unit_of(33, 3), 10.0, 15.0, 20.0);
+    check_clamp(&unit_of(21, 3), &unit_of(25, 3), &unit_of(35, 3), 10.0, 15.0, 20.0);
+    check_clamp(&unit_of(21, 3), &unit_of(33, 3), &unit_of(34, 3), 10.0, 15.0, 20.0);
+    check_clamp(&unit_of(21, 3), &unit_of(33, 3), &unit_of(0, 3), 10.0, 15.0, 20.0);
+    check_clamp(&unit_of(21, 3), &unit_of(33, 3), &unit_of(2, 3), 10.0, 15.0, 20.0);
+    check_clamp(&unit_of(21, 3), &unit_of(33, 3), &unit_of(7, 3), 10.0, 15.0, 20.0);
+    check_clamp(&unit_of(21, 3), &unit_of(33, 3), &unit_of(21, 3), 10.0, 15.0, 20.0);
+    check_clamp(&unit_of(21, 3), &unit_of(33, 3), &unit_of(25, 3), 10.0, 15.0, 20.0);
+    check_clamp(&unit_of(21, 3), &unit_of(33, 3), &unit_of(33, 3), 10.0, 15.0, 20.0);
+    check_clamp(&unit_of(21, 3), &unit_of(33, 3), &unit_of(35, 3), 10.0, 15.0, 20.0);
+    check_clamp(&unit_of(21, 3), &unit_of(35, 3), &unit_of(34, 3), 10.0, 15.0, 20.0);
+    check_clamp(&unit_of(21, 3), &unit_of(35, 3), &unit_of(0, 3), 10.0, 15.0, 20.0);
+    check_clamp(&unit_of(21, 3), &unit_of(35, 3), &unit_of(2, 3), 10.0, 15.0, 20.0);
+    check_clamp(&unit_of(21, 3), &unit_of(35, 3), &unit_of(7, 3), 10.0, 15.0, 20.0);
+    check_clamp(&unit_of(21, 3), &unit_of(35, 3), &unit_of(21, 3), 10.0, 15.0, 20.0);
+    check_clamp(&unit_of(21, 3), &unit_of(35, 3), &unit_of(25, 3), 10.0, 15.0, 20.0);
+    check_clamp(&unit_of(21, 3), &unit_of(35, 3), &unit_of(33, 3), 10.0, 15.0, 20.0);
+    check_clamp(&unit_of(21, 3), &unit_of(35, 3), &unit_of(35, 3), 10.0, 15.0, 20.0);
+    kani::cover!(true);
+}
+
+//@ ob: id=C16/K/clamp_all_reps_min_s kind=K-bounded tier=thorough fns=SassCalculation::clamp,Number::convert also=C01 bound="min unit = s; value and max units over the 8 class representatives {none,px,in,em,deg,s,%,unknown}; magnitudes 10/15/20"
+//@ desc: clamp contract (see clamp_min_*) over the wider representative set
+#[kani::proof]
+#[kani::unwind(2)]
+#[kani::stub(crate::value::Number::convert, convert_contract)]
+#[kani::stub(SassCalculation::verify_compatible_numbers, vcn_stub)]
+#[kani::stub(alloc::fmt::format, format_stub)]
+fn c16_clamp_all_reps_min_s() {
+    check_clamp(&unit_of(25, 3), &unit_of(34, 3), &unit_of(34, 3), 10.0, 15.0, 20.0);
+    check_clamp(&unit_of(25, 3), &unit_of(34, 3), &unit_of(0, 3), 10.0, 15.0, 20.0);
+    check_clamp(&unit_of(25, 3), &unit_of(34, 3), &unit_of(2, 3), 10.0, 15.0, 20.0);
+    check_clamp(&unit_of(25, 3), &unit_of(34, 3), &unit_of(7, 3), 10.0, 15.0, 20.0);
+    check_clamp(&unit_of(25, 3), &unit_of(34, 3), &unit_of(21, 3), 10.0, 15.0, 20.0);
+    check_clamp(&unit_of(25, 3), &unit_of(34, 3), &unit_of(25, 3), 10.0, 15.0, 20.0);
+    check_clamp(&unit_of(25, 3), &unit_of(34, 3), &unit_of(33, 3), 10.0, 15.0, 20.0);
+    check_clamp(&unit_of(25, 3), &unit_of(34, 3), &unit_of(35, 3), 10.0, 15.0, 20.0);
+    check_clamp(&unit_of(25, 3), &unit_of(0, 3), &unit_of(34, 3), 10.0, 15.0, 20.0);
+    check_clamp(&unit_of(25, 3), &unit_of(0, 3), &unit_of(0, 3), 10.0, 15.0, 20.0);
+    check_clamp(&unit_of(25, 3), &unit_of(0, 3), &unit_of(2, 3), 10.0, 15.0, 20.0);
+    check_clamp(&unit_of(25, 3), &unit_of(0, 3), &unit_of(7, 3), 10.0, 15.0, 20.0);
+    check_clamp(&unit_of(25, 3), &unit_of(0, 3), &unit_of(21, 3), 10.0, 15.0, 20.0);
+    check_clamp(&unit_of(25, 3), &unit_of(0, 3), &unit_of(25, 3), 10.0, 15.0, 20.0);
+    check_clamp(&unit_of(25, 3), &unit_of(0, 3), &unit_of(33, 3), 10.0, 15.0, 20.0);
+    check_clamp(&unit_of(25, 3), &unit_of(0, 3), &unit_of(35, 3), 10.0, 15.0, 20.0);
+    check_clamp(&unit_of(25, 3), &unit_of(2, 3), &unit_of(34, 3), 10.0, 15.0, 20.0);
+    check_clamp(&unit_of(25, 3), &unit_of(2, 3), &unit_of(0, 3), 10.0, 15.0, 20.0);
+    check_clamp(&unit_of(25, 3), &unit_of(2, 3), &unit_of(2, 3), 10.0, 15.0, 20.0);
+    check_clamp(&unit_of(25, 3), &unit_of(2, 3), &unit_of(7, 3), 10.0, 15.0, 20.0);
+    check_clamp(&unit_of(25, 3), &unit_of(2, 3), &unit_of(21, 3), 10.0, 15.0, 20.0);
+    check_clamp(&unit_of(25, 3), &unit_of(2, 3), &unit_of(25, 3), 10.0, 15.0, 20.0);
+    check_clamp(&unit_of(25, 3), &unit_of(2, 3), &unit_of(33, 3), 10.0, 15.0, 20.0);
+    check_clamp(&unit_of(25, 3), &unit_of(2, 3), &unit_of(35, 3), 10.0, 15.0, 20.0);
+    check_clamp(&unit_of(25, 3), &unit_of(7, 3), &unit_of(34, 3), 10.0, 15.0, 20.0);
+    check_clamp(&unit_of(25, 3), &unit_of(7, 3), &unit_of(0, 3), 10.0, 15.0, 20.0);
+    check_clamp(&unit_of(25, 3), &unit_of(7, 3), &unit_of(2, 3), 10.0, 15.0, 20.0);
+    check_clamp(&unit_of(25, 3), &unit_of(7, 3), &unit_of(7, 3), 10.0, 15.0, 20.0);
+    check_clamp(&unit_of(25, 3), &unit_of(7, 3), &unit_of(21, 3), 10.0, 15.0, 20.0);
+    check_clamp(&unit_of(25, 3), &unit_of(7, 3), &unit_of(25, 3), 10.0, 15.0, 20.0);
+    check_clamp(&unit_of(25, 3), &unit_of(7, 3), &unit_of(33, 3), 10.0, 15.0, 20.0);
+    check_clamp(&unit_of(25, 3), &unit_of(7, 3), &unit_of(35, 3), 10.0, 15.0, 20.0);
+    check_clamp(&unit_of(25, 3), &unit_of(21, 3), &unit_of(34, 3), 10.0, 15.0, 20.0);
+    check_clamp(&unit_of(25, 3), &unit_of(21, 3), &unit_of(0, 3), 10.0, 15.0, 20.0);
+    check_clamp(&unit_of(25, 3), &unit_of(21, 3), &unit_of(2, 3), 10.0, 15.0, 20.0);
+    check_clamp(&unit_of(25, 3), &unit_of(21, 3), &unit_of(7, 3), 10.0, 15.0, 20.0);
+    check_clamp(&unit_of(25, 3), &unit_of(21, 3), &unit_of(21, 3), 10.0, 15.0, 20.0);
+    check_clamp(&unit_of(25, 3), &unit_of(21, 3), &unit_of(25, 3), 10.0, 15.0, 20.0);
+    check_clamp(&unit_of(25, 3), &unit_of(21, 3), &unit_of(33, 3), 10.0, 15.0, 20.0);
+    check_clamp(&unit_of(25, 3), &unit_of(21, 3), &unit_of(35, 3), 10.0, 15.0, 20.0);
+    check_clamp(&unit_of(25, 3), &unit_of(25, 3), &unit_of(34, 3), 10.0, 15.0, 20.0);
+    check_clamp(&unit_of(25, 3), &unit_of(25, 3), &unit_of(0, 3), 10.0, 15.0, 20.0);
+    check_clamp(&unit_of(25, 3), &unit_of(25, 3), &unit_of(2, 3), 10.0, 15.0, 20.0);
+    check_clamp(&unit_of(25, 3), &unit_of(25, 3), &unit_of(7, 3), 10.0, 15.0, 20.0);
+    check_clamp(&unit_of(25, 3), &unit_of(25, 3), &unit_of(21, 3), 10.0, 15.0, 20.0);
+    check_clamp(&unit_of(25, 3), &unit_of(25, 3), &unit_of(25, 3), 10.0, 15.0, 20.0);
+    check_clamp(&unit_of(25, 3), &unit_of(25, 3), &unit_of(33, 3), 10.0, 15.0, 20.0);
+    check_clamp(&unit_of(25, 3), &unit_of(25, 3), &unit_of(35, 3), 10.0, 15.0, 20.0);
+    check_clamp(&unit_of(25, 3), &unit_of(33, 3), &unit_of(34, 3), 10.0, 15.0, 20.0);
+    check_clamp(&unit_of(25, 3), &unit_of(33, 3), &unit_of(0, 3), 10.0, 15.0, 20.0);
+    check_clamp(&unit_of(25, 3), &unit_of(33, 3), &unit_of(2, 3), 10.0, 15.0, 20.0);
+    check_clamp(&unit_of(25, 3), &unit_of(33, 3), &unit_of(7, 3), 10.0, 15.0, 20.0);
+    check_clamp(&unit_of(25, 3), &unit_of(33, 3), &unit_of(21, 3), 10.0, 15.0, 20.0);
+    check_clamp(&unit_of(25, 3), &unit_of(33, 3), &unit_of(25, 3), 10.0, 15.0, 20.0);
+    check_clamp(&unit_of(25, 3), &unit_of(33, 3), &unit_of(33, 3), 10.0, 15.0, 20.0);
+    check_clamp(&unit_of(25, 3), &unit_of(33, 3), &unit_of(35, 3), 10.0, 15.0, 20.0);
+    check_clamp(&unit_of(25, 3), &unit_of(35, 3), &unit_of(34, 3), 10.0, 15.0, 20.0);
+    check_clamp(&unit_of(25, 3), &unit_of(35, 3), &unit_of(0, 3), 10.0, 15.0, 20.0);
+    check_clamp(&unit_of(25, 3), &unit_of(35, 3), &unit_of(2, 3), 10.0, 15.0, 20.0);
+    check_clamp(&unit_of(25, 3), &unit_of(35, 3), &unit_of(7, 3), 10.0, 15.0, 20.0);
+    check_clamp(&unit_of(25, 3), &unit_of(35, 3), &unit_of(21, 3), 10.0, 15.0, 20.0);
+    check_clamp(&unit_of(25, 3), &unit_of(35, 3), &unit_of(25, 3), 10.0, 15.0, 20.0);
+    check_clamp(&unit_of(25, 3), &unit_of(35, 3), &unit_of(33, 3), 10.0, 15.0, 20.0);
+    check_clamp(&unit_of(25, 3), &unit_of(35, 3), &unit_of(35, 3), 10.0, 15.0, 20.0);
+    kani::cover!(true);
+}
+
+//@ ob: id=C16/K/clamp_all_reps_min_percent kind=K-bounded tier=thorough fns=SassCalculation::clamp,Number::convert also=C01 bound="min unit = percent; value and max units over the 8 class representatives {none,px,in,em,deg,s,%,unknown}; magnitudes 10/15/20"
+//@ desc: clamp contract (see clamp_min_*) over the wider representative set
+#[kani::proof]
+#[kani::unwind(2)]
+#[kani::stub(crate::value::Number::convert, convert_contract)]
+#[kani::stub(SassCalculation::verify_compatible_numbers, vcn_stub)]
+#[kani::stub(alloc::fmt::format, format_stub)]
+fn c16_clamp_all_reps_min_percent() {
+    check_clamp(&unit_of(33, 3), &unit_of(34, 3), &unit_of(34, 3), 10.0, 15.0, 20.0);
+    check_clamp(&unit_of(33, 3), &unit_of(34, 3), &unit_of(0, 3), 10.0, 15.0, 20.0);
+    check_clamp(&unit_of(33, 3), &unit_of(34, 3), &unit_of(2, 3), 10.0, 15.0, 20.0);
+    check_clamp(&unit_of(33, 3), &unit_of(34, 3), &unit_of(7, 3), 10.0, 15.0, 20.0);
+    check_clamp(&unit_of(33, 3), &unit_of(34, 3), &unit_of(21, 3), 10.0, 15.0, 20.0);
+    check_clamp(&unit_of(33, 3), &unit_of(34, 3), &unit_of(25, 3), 10.0, 15.0, 20.0);
+    check_clamp(&unit_of(33, 3), &unit_of(34, 3), &unit_of(33, 3), 10.0, 15.0, 20.0);
+    check_clamp(&unit_of(33, 3), &unit_of(34, 3), &unit_of(35, 3), 10.0, 15.0, 20.0);
+    check_clamp(&unit_of(33, 3), &unit_of(0, 3), &unit_of(34, 3), 10.0, 15.0, 20.0);
+    check_clamp(&unit_of(33, 3), &unit_of(0, 3), &unit_of(0, 3), 10.0, 15.0, 20.0);
+    check_clamp(&unit_of(33, 3), &unit_of(0, 3), &unit_of(2, 3), 10.0, 15.0, 20.0);
+    check_clamp(&unit_of(33, 3), &unit_of(0, 3), &unit_of(7, 3), 10.0, 15.0, 20.0);
+    check_clamp(&unit_of(33, 3), &unit_of(0, 3), &unit_of(21, 3), 10.0, 15.0, 20.0);
+    check_clamp(&unit_of(33, 3), &unit_of(0, 3), &unit_of(25, 3), 10.0, 15.0, 20.0);
+    check_clamp(&unit_of(33, 3), &unit_of(0, 3), &unit_of(33, 3), 10.0, 15.0, 20.0);
+    check_clamp(&unit_of(33, 3), &unit_of(0, 3), &unit_of(35, 3), 10.0, 15.0, 20.0);
+    check_clamp(&unit_of(33, 3), &unit_of(2, 3), &unit_of(34, 3), 10.0, 15.0, 20.0);
+    check_clamp(&unit_of(33, 3), &unit_of(2, 3), &unit_of(0, 3), 10.0, 15.0, 20.0);
+    check_clamp(&unit_of(33, 3), &unit_of(2, 3), &unit_of(2, 3), 10.0, 15.0, 20.0);
+    check_clamp(&unit_of(33, 3), &unit_of(2, 3), &unit_of(7, 3), 10.0, 15.0, 20.0);
+    check_clamp(&unit_of(33, 3), &unit_of(2, 3), &unit_of(21, 3), 10.0, 15.0, 20.0);
+    check_clamp(&unit_of(33, 3), &unit_of(2, 3), &unit_of(25, 3), 10.0, 15.0, 20.0);
+    check_clamp(&unit_of(33, 3), &unit_of(2, 3), &unit_of(33, 3), 10.0, 15.0, 20.0);
+    check_clamp(&unit_of(33, 3), &unit_of(2, 3), &unit_of(35, 3), 10.0, 15.0, 20.0);
+    check_clamp(&unit_of(33, 3), &unit_of(7, 3), &unit_of(34, 3), 10.0, 15.0, 20.0);
+    check_clamp(&unit_of(33, 3), &unit_of(7, 3), &unit_of(0, 3), 10.0, 15.0, 20.0);
+    check_clamp(&unit_of(33, 3), &unit_of(7, 3), &unit_of(2, 3), 10.0, 15.0, 20.0);
+    check_clamp(&unit_of(33, 3), &unit_of(7, 3), &unit_of(7, 3), 10.0, 15.0, 20.0);
+    check_clamp(&unit_of(33, 3), &unit_of(7, 3), &unit_of(21, 3), 10.0, 15.0, 20.0);
+    check_clamp(&unit_of(33, 3), &unit_of(7, 3), &unit_of(25, 3), 10.0, 15.0, 20.0);
+    check_clamp(&unit_of(33, 3), &unit_of(7, 3), &unit_of(33, 3), 10.0, 15.0, 20.0);
+    check_clamp(&unit_of(33, 3), &unit_of(7, 3), &unit_of(35, 3), 10.0, 15.0, 20.0);
+    check_clamp(&unit_of(33, 3), &unit_of(21, 3), &unit_of(34, 3), 10.0, 15.0, 20.0);
+    check_clamp(&unit_of(33, 3), &unit_of(21, 3), &unit_of(0, 3), 10.0, 15.0, 20.0);
+    check_clamp(&unit_of(33, 3), &unit_of(21, 3), &unit_of(2, 3), 10.0, 15.0, 20.0);
+    check_clamp(&unit_of(33, 3), &unit_of(21, 3), &unit_of(7, 3), 10.0, 15.0, 20.0);
+    check_clamp(&unit_of(33, 3), &unit_of(21, 3), &unit_of(21, 3), 10.0, 15.0, 20.0);
+    check_clamp(&unit_of(33, 3), &unit_of(21, 3), &unit_of(25, 3), 10.0, 15.0, 20.0);
+    check_clamp(&unit_of(33, 3), &unit_of(21, 3), &unit_of(33, 3), 10.0, 15.0, 20.0);
+    check_clamp(&unit_of(33, 3), &unit_of(21, 3), &unit_of(35, 3), 10.0, 15.0, 20.0);
+    check_clamp(&unit_of(33, 3), &unit_of(25, 3), &unit_of(34, 3), 10.0, 15.0, 20.0);
+    check_clamp(&unit_of(33, 3), &unit_of(25, 3), &unit_of(0, 3), 10.0, 15.0, 20.0);
+    check_clamp(&unit_of(33, 3), &unit_of(25, 3), &unit_of(2, 3), 10.0, 15.0, 20.0);
+    check_clamp(&unit_of(33, 3), &unit_of(25, 3), &unit_of(7, 3), 10.0, 15.0, 20.0);
+    check_clamp(&unit_of(33, 3), &unit_of(25, 3), &unit_of(21, 3), 10.0, 15.0, 20.0);
+    check_clamp(&unit_of(33, 3), &unit_of(25, 3), &unit_of(25, 3), 10.0, 15.0, 20.0);
+    check_clamp(&unit_of(33, 3), &unit_of(25, 3), &unit_of(33, 3), 10.0, 15.0, 20.0);
+    check_clamp(&unit_of(33, 3), &unit_of(25, 3), &unit_of(35, 3), 10.0, 15.0, 20.0);
+    check_clamp(&unit_of(33, 3), &unit_of(33, 3), &unit_of(34, 3), 10.0, 15.0, 20.0);
+    check_clamp(&unit_of(33, 3), &unit_of(33, 3), &unit_of(0, 3), 10.0, 15.0, 20.0);
+    check_clamp(&unit_of(33, 3), &unit_of(33, 3), &unit_of(2, 3), 10.0, 15.0, 20.0);
+    check_clamp(&unit_of(33, 3), &unit_of(33, 3), &unit_of(7, 3), 10.0, 15.0, 20.0);
+    check_clamp(&unit_of(33, 3), &unit_of(33, 3), &unit_of(21, 3), 10.0, 15.0, 20.0);
+    check_clamp(&unit_of(33, 3), &unit_of(33, 3), &unit_of(25, 3), 10.0, 15.0, 20.0);
+    check_clamp(&unit_of(33, 3), &unit_of(33, 3), &unit_of(33, 3), 10.0, 15.0, 20.0);
+    check_clamp(&unit_of(33, 3), &unit_of(33, 3), &unit_of(35, 3), 10.0, 15.0, 20.0);
+    check_clamp(&unit_of(33, 3), &unit_of(35, 3), &unit_of(34, 3), 10.0, 15.0, 20.0);
+    check_clamp(&unit_of(33, 3), &unit_of(35, 3), &unit_of(0, 3), 10.0, 15.0, 20.0);
+    check_clamp(&unit_of(33, 3), &unit_of(35, 3), &unit_of(2, 3), 10.0, 15.0, 20.0);
+    check_clamp(&unit_of(33, 3), &unit_of(35, 3), &unit_of(7, 3), 10.0, 15.0, 20.0);
+    check_clamp(&unit_of(33, 3), &unit_of(35, 3), &unit_of(21, 3), 10.0, 15.0, 20.0);
+    check_clamp(&unit_of(33, 3), &unit_of(35, 3), &unit_of(25, 3), 10.0, 15.0, 20.0);
+    check_clamp(&unit_of(33, 3), &unit_of(35, 3), &unit_of(33, 3), 10.0, 15.0, 20.0);
+    check_clamp(&unit_of(33, 3), &unit_of(35, 3), &unit_of(35, 3), 10.0, 15.0, 20.0);
+    kani::cover!(true);
+}
+
+//@ ob: id=C16/K/clamp_all_reps_min_unknown kind=K-bounded tier=thorough fns=SassCalculation::clamp,Number::convert also=C01 bound="min unit = unknown; value and max units over the 8 class representatives {none,px,in,em,deg,s,%,unknown}; magnitudes 10/15/20"
+//@ desc: clamp contract (see clamp_min_*) over the wider representative set
+#[kani::proof]
+#[kani::unwind(2)]
+#[kani::stub(crate::value::Number::convert, convert_contract)]
+#[kani::stub(SassCalculation::verify_compatible_numbers, vcn_stub)]
+#[kani::stub(alloc::fmt::format, format_stub)]
+fn c16_clamp_all_reps_min_unknown() {
+    check_clamp(&unit_of(35, 3), &unit_of(34, 3), &unit_of(34, 3), 10.0, 15.0, 20.0);
+    check_clamp(&unit_of(35, 3), &unit_of(34, 3), &unit_of(0, 3), 10.0, 15.0, 20.0);
+    check_clamp(&unit_of(35, 3), &unit_of(34, 3), &unit_of(2, 3), 10.0, 15.0, 20.0);
+    check_clamp(&unit_of(35, 3), &unit_of(34, 3), &unit_of(7, 3), 10.0, 15.0, 20.0);
+    check_clamp(&unit_of(35, 3), &unit_of(34, 3), &unit_of(21, 3), 10.0, 15.0, 20.0);
+    check_clamp(&unit_of(35, 3), &unit_of(34, 3), &unit_of(25, 3), 10.0, 15.0, 20.0);
+    check_clamp(&unit_of(35, 3), &unit_of(34, 3), &unit_of(33, 3), 10.0, 15.0, 20.0);
+    check_clamp(&unit_of(35, 3), &unit_of(34, 3), &unit_of(35, 3), 10.0, 15.0, 20.0);
+    check_clamp(&unit_of(35, 3), &unit_of(0, 3), &unit_of(34, 3), 10.0, 15.0, 20.0);
+    check_clamp(&unit_of(35, 3), &unit_of(0, 3), &unit_of(0, 3), 10.0, 15.0, 20.0);
+    check_clamp(&unit_of(35, 3), &unit_of(0, 3), &unit_of(2, 3), 10.0, 15.0, 20.0);
+    check_clamp(&unit_of(35, 3), &unit_of(0, 3), &unit_of(7, 3), 10.0, 15.0, 20.0);
+    check_clamp(&unit_of(35, 3), &unit_of(0, 3), &unit_of(21, 3), 10.0, 15.0, 20.0);
+    check_clamp(&unit_of(35, 3), &unit_of(0, 3), &unit_of(25, 3), 10.0, 15.0, 20.0);
+    check_clamp(&unit_of(35, 3), &unit_of(0, 3), &unit_of(33, 3), 10.0, 15.0, 20.0);
+    check_clamp(&unit_of(35, 3), &unit_of(0, 3), &unit_of(35, 3), 10.0, 15.0, 20.0);
+    check_clamp(&unit_of(35, 3), &unit_of(2, 3), &unit_of(34, 3), 10.0, 15.0, 20.0);
+    check_clamp(&unit_of(35, 3), &unit_of(2, 3), &unit_of(0, 3), 10.0, 15.0, 20.0);
+    check_clamp(&unit_of(35, 3), &unit_of(2, 3), &unit_of(2, 3), 10.0, 15.0, 20.0);
+    check_clamp(&unit_of(35, 3), &unit_of(2, 3), &unit_of(7, 3), 10.0, 15.0, 20.0);
+    check_clamp(&unit_of(35, 3), &unit_of(2, 3), &unit_of(21, 3), 10.0, 15.0, 20.0);
+    check_clamp(&unit_of(35, 3), &unit_of(2, 3), &unit_of(25, 3), 10.0, 15.0, 20.0);
+    check_clamp(&unit_of(35, 3), &unit_of(2, 3), &unit_of(33, 3), 10.0, 15.0, 20.0);
+    check_clamp(&unit_of(35, 3), &unit_of(2, 3), &unit_of(35, 3), 10.0, 15.0, 20.0);
+    check_clamp(&unit_of(35, 3), &unit_of(7, 3), &unit_of(34, 3), 10.0, 15.0, 20.0);
+    check_clamp(&unit_of(35, 3), &unit_of(7, 3), &unit_of(0, 3), 10.0, 15.0, 20.0);
+    check_clamp(&unit_of(35, 3), &unit_of(7, 3), &unit_of(2, 3), 10.0, 15.0, 20.0);
+    check_clamp(&unit_of(35, 3), &unit_of(7, 3), &unit_of(7, 3), 10.0, 15.0, 20.0);
+    check_clamp(&unit_of(35, 3), &unit_of(7, 3), &unit_of(21, 3), 10.0, 15.0, 20.0);
+    check_clamp(&unit_of(35, 3), &unit_of(7, 3), &unit_of(25, 3), 10.0, 15.0, 20.0);
+    check_clamp(&unit_of(35, 3), &unit_of(7, 3), &unit_of(33, 3), 10.0, 15.0, 20.0);
+    check_clamp(&unit_of(35, 3), &unit_of(7, 3), &unit_of(35, 3), 10.0, 15.0, 20.0);
+    check_clamp(&unit_of(35, 3), &unit_of(21, 3), &unit_of(34, 3), 10.0, 15.0, 20.0);
+    check_clamp(&unit_of(35, 3), &unit_of(21, 3), &unit_of(0, 3), 10.0, 15.0, 20.0);
+    check_clamp(&unit_of(35, 3), &unit_of(21, 3), &unit_of(2, 3), 10.0, 15.0, 20.0);
+    check_clamp(&unit_of(35, 3), &unit_of(21, 3), &unit_of(7, 3), 10.0, 15.0, 20.0);
+    check_clamp(&unit_of(35, 3), &unit_of(21, 3), &unit_of(21, 3), 10.0, 15.0, 20.0);
+    check_clamp(&unit_of(35, 3), &unit_of(21, 3), &unit_of(25, 3), 10.0, 15.0, 20.0);
+    check_clamp(&unit_of(35, 3), &unit_of(21, 3), &unit_of(33, 3), 10.0, 15.0, 20.0);
+    check_clamp(&unit_of(35, 3), &unit_of(21, 3), &unit_of(35, 3), 10.0, 15.0, 20.0);
+    check_clamp(&unit_of(35, 3), &unit_of(25, 3), &unit_of(34, 3), 10.0, 15.0, 20.0);
+    check_clamp(&unit_of(35, 3), &unit_of(25, 3), &unit_of(0, 3), 10.0, 15.0, 20.0);
+    check_clamp(&unit_of(35, 3), &unit_of(25, 3), &unit_of(2, 3), 10.0, 15.0, 20.0);
+    check_clamp(&unit_of(35, 3), &unit_of(25, 3), &unit_of(7, 3), 10.0, 15.0, 20.0);
+    check_clamp(&unit_of(35, 3), &unit_of(25, 3), &unit_of(21, 3), 10.0, 15.0, 20.0);
+    check_clamp(&unit_of(35, 3), &unit_of(25, 3), &unit_of(25, 3), 10.0, 15.0, 20.0);
+    check_clamp(&unit_of(35, 3), &unit_of(25, 3), &unit_of(33, 3), 10.0, 15.0, 20.0);
+    check_clamp(&unit_of(35, 3), &unit_of(25, 3), &unit_of(35, 3), 10.0, 15.0, 20.0);
+    check_clamp(&unit_of(35, 3), &unit_of(33, 3), &unit_of(34, 3), 10.0, 15.0, 20.0);
+    check_clamp(&unit_of(35, 3), &unit_of(33, 3), &unit_of(0, 3), 10.0, 15.0, 20.0);
+    check_clamp(&unit_of(35, 3), &unit_of(33, 3), &unit_of(2, 3), 10.0, 15.0, 20.0);
+    check_clamp(&unit_of(35, 3), &unit_of(33, 3), &unit_of(7, 3), 10.0, 15.0, 20.0);
+    check_clamp(&unit_of(35, 3), &unit_of(33, 3), &unit_of(21, 3), 10.0, 15.0, 20.0);
+    check_clamp(&unit_of(35, 3), &unit_of(33, 3), &unit_of(25, 3), 10.0, 15.0, 20.0);
+    check_clamp(&unit_of(35, 3), &unit_of(33, 3), &unit_of(33, 3), 10.0, 15.0, 20.0);
+    check_clamp(&unit_of(35, 3), &unit_of(33, 3), &unit_of(35, 3), 10.0, 15.0, 20.0);
+    check_clamp(&unit_of(35, 3), &unit_of(35, 3), &unit_of(34, 3), 10.0, 15.0, 20.0);
+    check_clamp(&unit_of(35, 3), &unit_of(35, 3), &unit_of(0, 3), 10.0, 15.0, 20.0);
+    check_clamp(&unit_of(35, 3), &unit_of(35, 3), &unit_of(2, 3), 10.0, 15.0, 20.0);
+    check_clamp(&unit_of(35, 3), &unit_of(35, 3), &unit_of(7, 3), 10.0, 15.0, 20.0);
+    check_clamp(&unit_of(35, 3), &unit_of(35, 3), &unit_of(21, 3), 10.0, 15.0, 20.0);
+    check_clamp(&unit_of(35, 3), &unit_of(35, 3), &unit_of(25, 3), 10.0, 15.0, 20.0);
+    check_clamp(&unit_of(35, 3), &unit_of(35, 3), &unit_of(33, 3), 10.0, 15.0, 20.0);
+    check_clamp(&unit_of(35, 3), &unit_of(35, 3), &unit_of(35, 3), 10.0, 15.0, 20.0);
+    kani::cover!(true);
+}
+
+// ---------------------------------------------------------------------------
 // operate_internal (C16 mech 1): folding of compatible numbers, and sign
 // normalisation of a negative right operand in an unsimplified `+`/`-`
 // ---------------------------------------------------------------------------
